@@ -66,9 +66,9 @@ class C08(Prop):
             cnt = 0
             for i, g in enumerate(r["gaps"]):
                 k = r["pattern"][i]
-                rp = {"driver": "pollForNewRequests with scripted list outcomes (0 ok,1 transport error,2 500,3 bad JSON,4 404)",
+                rp = {"driver": "pollForNewRequests with scripted list outcomes (0 ok,1 transport error,2 500,3 bad JSON,4 404,5/6/7 500/503/401 with empty body,8 ok with empty body)",
                       "pattern": r["pattern"], "gaps_ns": r["gaps"], "index": i}
-                if k == 0:
+                if k in (0, 8):
                     cnt = 0
                     if g > SLACK:
                         res.append(("loop:sleep-after-success", "poll loop waited %d ns after a successful list call" % g, rp))
@@ -87,7 +87,7 @@ class C08(Prop):
         body = ["From Coq Require Import ZArith List Bool.", "From IP Require Import Agent.BackoffCheck.", "Import ListNotations.", "Open Scope Z_scope.",
                 "Definition direct_cases : list (Z*Z*Z) := " + C.llit("(%s,%s,%s)" % (C.zlit(a), C.zlit(b), C.zlit(c)) for a, b, c in direct) + ".",
                 "Definition loop_cases : list (list bool * list Z) := " + C.llit(
-                    "(%s,%s)" % (C.llit(C.blit(k == 0) for k in r["pattern"]), C.llit(C.zlit(g) for g in r["gaps"])) for r in loops) + ".",
+                    "(%s,%s)" % (C.llit(C.blit(k in (0, 8)) for k in r["pattern"]), C.llit(C.zlit(g) for g in r["gaps"])) for r in loops) + ".",
                 "Definition verif_result : list Z := Eval vm_compute in (bad_indices direct_ok 0 direct_cases ++ bad_indices (loop_ok %d) 1000000 loop_cases)." % SLACK]
         txt, out, dt = C.eval_cases(ctx.work, "cases_c08", "\n".join(body))
         if txt is None:
@@ -116,7 +116,7 @@ class C08(Prop):
             "distinct_nontrivial": distinct_n + nontrivial_loops,
             "rule": "direct: one case per distinct retry count n (boundary set 0..70, 2^k-1/2^k/2^k+1, 2^64-1, plus seeded random n over all magnitudes), each drawn `draws` times; loop: one case per distinct outcome pattern with at least one failure and two calls",
             "samples": [obs["direct"][0], obs["direct"][12], obs["direct"][-1], obs["loop"][0]],
-            "input_distribution": {"retry_count_classes": dict(hist), "list_outcome_kinds(0=ok,1=transport,2=500,3=badjson,4=404)": {str(k): v for k, v in kinds.items()},
+            "input_distribution": {"retry_count_classes": dict(hist), "list_outcome_kinds(0=ok,1=transport,2=500,3=badjson,4=404,5/6/7=500/503/401 empty body,8=ok empty body)": {str(k): v for k, v in kinds.items()},
                                    "loop_patterns": len(obs["loop"]), "max_pattern_len": max(len(r["pattern"]) for r in obs["loop"])},
         }
 
